@@ -11,6 +11,7 @@
 (*  raised      : "~" or the exception class that left mc.merge()          *)
 (*  nwarn       : number of MosMergeNonStrictWarning recorded              *)
 (*  fold_eq     : str(mc) = str of a hand fold over freshly parsed msgs    *)
+(*  sorted_mids : message ids of sorted(MosFile objects of the documents)  *)
 (*  reader_ok   : every MosReader reports the id / roID / class of the     *)
 (*                object it restores and restores a fresh equal object     *)
 (***************************************************************************)
@@ -35,7 +36,9 @@ Failing(ev) ==
   IN (IF ev.accepted = (IF acc THEN "ok" ELSE "InvalidMosCollection")
          /\ (okA /\ acc => ev.ro_mid = TheCreate(ev.docs).mid)
       THEN <<>> ELSE <<"coll_accept">>)
-     \o (IF (okA /\ acc) => ev.reader_mids = Mids(Readers(ev.docs)) THEN <<>> ELSE <<"coll_order">>)
+     \o (IF /\ (okA /\ acc) => ev.reader_mids = Mids(Readers(ev.docs))
+            /\ ev.sorted_mids = Mids(SortByMid(ev.docs))       \* sorted(MosFile objects): same numeric order
+         THEN <<>> ELSE <<"coll_order">>)
      \o (IF (okA /\ acc /\ ev.merged) =>
               /\ [k \in DOMAIN ev.steps |-> ev.steps[k].mid] = Attempted(ev.docs, ev.strict)
               /\ \A k \in DOMAIN ev.steps :
